@@ -39,7 +39,7 @@ def model_check(tmp, name, overrides, timeout=1500):
     if not r["ok"]:
         res["violation"] = r["violation"]
         res["actions"] = re.findall(r"State \d+: <(\w+)", r["out"])
-        bad = re.findall(r'bad \|-> "([^"]*)"', r["out"])
+        bad = re.findall(r'bad \|-> \{"([^"]*)"', r["out"])
         res["clause"] = bad[-1] if bad else ""
     return res
 
